@@ -29,6 +29,8 @@ impl From<Request<TimeRequest>> for TEffect {
 pub enum TEvent {
     Completed(usize),
     Cleared(usize),
+    /// an outcome of a kind this harness does not know (crux's enum may grow): never predicted
+    Unknown(usize),
 }
 
 #[derive(Clone, Copy, Debug, PartialEq, Eq, PartialOrd, Ord, Serialize, Deserialize)]
@@ -397,6 +399,8 @@ fn outcome_event(i: usize, o: TimerOutcome) -> TEvent {
     match o {
         TimerOutcome::Completed(_) => TEvent::Completed(i),
         TimerOutcome::Cleared => TEvent::Cleared(i),
+        #[allow(unreachable_patterns)]
+        _ => TEvent::Unknown(i),
     }
 }
 
@@ -491,6 +495,7 @@ impl RealTimers {
             out.push(match e {
                 TEvent::Completed(i) => RefOut::Completed(i),
                 TEvent::Cleared(i) => RefOut::Cleared(i),
+                TEvent::Unknown(i) => return Err(TFail { key: "outcome/unknown-kind".into(), what: format!("timer {i} reported an outcome of a kind this harness does not know") }),
             });
         }
         out.sort();
@@ -1043,6 +1048,8 @@ pub mod legacy {
                             got_clear.push(i);
                         }
                         TimeRequest::Now => {}
+                        #[allow(unreachable_patterns)]
+                        other => return Err(TFail { key: "request/unknown-kind".into(), what: format!("request of a kind this harness does not know: {other:?}") }),
                     },
                     Effect::Render(_) => {}
                 }
@@ -1073,6 +1080,8 @@ pub mod legacy {
                 let ok = match r {
                     TimeResponse::Cleared { id: x } | TimeResponse::DurationElapsed { id: x } | TimeResponse::InstantArrived { id: x } => *x == id,
                     TimeResponse::Now { .. } => false,
+                    #[allow(unreachable_patterns)]
+                    _ => false,
                 };
                 if !ok {
                     return Err(TFail { key: "outcome/wrong-id".into(), what: format!("outcome of timer {i} carries {:?}, its id is {:?}", r, id) });
@@ -1424,6 +1433,8 @@ pub mod viacore {
                             obs.push(RefOut::ClearRequest(i));
                         }
                         TimeRequest::Now => {}
+                        #[allow(unreachable_patterns)]
+                        other => return Err(TFail { key: "request/unknown-kind".into(), what: format!("request of a kind this harness does not know: {other:?}") }),
                     },
                     Effect::Render(_) => {}
                 }
